@@ -64,6 +64,8 @@ def getattr_v(I, ctx, fr, v, name, node):
         if I.classes.has(d):
             return VClass(d)
         return VExternal(d)
+    if isinstance(v, VClass) and v.name in ('builtins.set', 'builtins.frozenset') and name in ('union', 'intersection'):
+        return VBuiltin('set.' + name)
     if isinstance(v, VClass):
         if name == '__name__':
             return VStr(v.name.rsplit('.', 1)[-1])
@@ -215,8 +217,13 @@ def list_method(I, ctx, fr, ref, h, name, args, kwargs, node):
         n = z3.Length(h.z)
         # list.insert clamps the index like a slice bound
         pos = Z.simp(z3.If(idx < 0, z3.If(n + idx < 0, z3.IntVal(0), n + idx), z3.If(idx > n, n, idx)))
-        h.z = z3.Concat(z3.Extract(h.z, 0, pos), z3.Unit(h.et.to_z(args[1], ctx)),
-                        z3.Extract(h.z, pos, n - pos))
+        # decomposition form (the Extract form stalls the sequence solver):
+        # old == pre ++ post with |pre| == pos; new == pre ++ [x] ++ post
+        pre = Z.fresh('ins_pre', h.z.sort())
+        post = Z.fresh('ins_post', h.z.sort())
+        ctx.assume(h.z == z3.Concat(pre, post))
+        ctx.assume(z3.Length(pre) == pos)
+        h.z = z3.Concat(pre, z3.Unit(h.et.to_z(args[1], ctx)), post)
         return NONE
     if name == 'pop':
         ctx.mutate(ref, node)
@@ -537,6 +544,7 @@ def seq_of_iterable(I, ctx, v, node):
         z, et = s
         order = Z.fresh('order', Z.SeqSort(et.zsort))
         ctx.assume(M.elems_of(order) == z)
+        ctx.assume((z3.Length(order) == 0) == (z == Z.empty_set(et.zsort)))
         return None, (order, et)
     if isinstance(v, VZip):
         raise Unsupported('materialising a symbolic sequence of tuples', node)
@@ -677,13 +685,15 @@ def _b_reversed(I, ctx, fr, args, kwargs, node):
     if q is None:
         raise Unsupported('reversed(%r)' % (v,), node)
     z, et = q
-    rev = Z.func('reversed<%s>' % z.sort(), z.sort(), z.sort())
-    r = rev(z)
-    n = z3.Length(z)
-    ctx.assume(z3.Length(r) == n)
-    k = z3.Int('rev!k')
-    ctx.assume(z3.ForAll([k], z3.Implies(z3.And(k >= 0, k < n), r[k] == z[n - 1 - k])))
-    return M.VIter(sym=VSeq(r, et))
+    return M.VIter(sym=VReversed(VSeq(z, et)))
+
+
+class VReversed(V):
+    """reversed(seq) over a symbolic sequence: a view, iterated from the end."""
+    kind = 'reversed'
+
+    def __init__(self, seq):
+        self.seq = seq
 
 
 def _b_zip(I, ctx, fr, args, kwargs, node):
@@ -885,7 +895,21 @@ def _b_defaultdict(factory_name):
     pass
 
 
+def _b_set_union(I, ctx, fr, args, kwargs, node):
+    from . import models as M
+    z, et = None, None
+    for a in args:
+        s, e = M.iterable_as_set(I, ctx, a, node)
+        if s is None:
+            continue
+        z, et = (s, e) if z is None else (z3.SetUnion(z, s), et)
+    if z is None:
+        return M.make_set(I, ctx, [], fr)
+    return VSet(z, et) if fr.spec else ctx.alloc(HSet(z, et))
+
+
 BUILTIN_FUNCS = {
+    'set.union': _b_set_union,
     'len': _b_len, 'isinstance': _b_isinstance, 'issubclass': _b_issubclass, 'getattr': _b_getattr,
     'hasattr': _b_hasattr, 'setattr': _b_setattr, 'callable': _b_callable, 'set': _b_set,
     'frozenset': _b_frozenset, 'list': _b_list, 'tuple': _b_tuple, 'dict': _b_dict, 'str': _b_str,
